@@ -62,7 +62,7 @@ def cycLevel (d : QueryDoc) : Nat → CycRec
       if nodes.isEmpty then some st1
       else cycLoop d (cycLevel d n) path ((frag.name, path.length) :: index) nodes st1
 
-def noFragmentCyclesStep (_ : Schema) (d : QueryDoc) (visited : List Name) (e : Event) : StepOut (List Name) :=
+def noFragmentCyclesStep (_ : SV) (d : QueryDoc) (visited : List Name) (e : Event) : StepOut (List Name) :=
   match e.p with
   | .fragment f _ =>
     match cycLevel d (d.frags.length + 2) f [] [] { visited := visited, errs := [] } with
